@@ -72,7 +72,14 @@ fn write_source_span_at(f: &mut fmt::Formatter<'_>, file: &FileOrLib, span: Span
         FileOrLib::Lib(lib) => write_source_line_from_stdlib(f, lib, span.line_start)?,
     }
     write!(f, "{}", INDENT)?;
-    underline(f, span.col_start, span.col_end - span.col_start)
+    // Only the first line is shown - a span that ends on another line is underlined to the
+    // end of what we know of it.
+    let len = if span.line_end == span.line_start {
+        span.col_end - span.col_start
+    } else {
+        1
+    };
+    underline(f, span.col_start, len)
 }
 
 fn file_line_display(file: &FileOrLib, line: usize) -> String {
